@@ -708,8 +708,13 @@ fn run_mini(m: &Mini, h: &Vec<Op>, drop_table: bool) -> Outcome
                 }
                 if let Op::BuildErrors(n) | Op::BuildReport(n, _) = op
                 {
-                    let got = match &result { Err(crate::build::BuildError::WorkErrors(v)) => v.len(), Err(_) => 1, Ok(()) => 0 };
-                    if got != *n
+                    let got = match &result { Err(crate::build::BuildError::WorkErrors(v)) => v.len(), Err(_) => usize::MAX, Ok(()) => 0 };
+                    if got == usize::MAX
+                    {
+                        let what = format!("{} rule(s) fail in this build; instead of reporting them the build ends with: {}", n, match &result { Err(e) => format!("{}", e), Ok(()) => String::new() });
+                        complaints.push(("B-build-C04".to_string(), what.clone())); complaints.push(("B-build-C05".to_string(), what));
+                    }
+                    else if got != *n
                     {
                         complaints.push(("B-build-C04".to_string(), format!("{} rule(s) fail in this build, {} failure(s) reported", n, got)));
                         complaints.push(("B-build-C20".to_string(), format!("{} rule(s) fail in this build, {} failure(s) reported", n, got)));
@@ -1014,6 +1019,69 @@ parts/sub/b.txt
 whole.txt
 :
 ";
+const RULES_NOCMD : &str = "\
+before.txt
+:
+in.txt
+:
+mycat
+in.txt
+before.txt
+:
+
+nothing.txt
+:
+before.txt
+:
+:
+
+after.txt
+:
+nothing.txt
+:
+mycat
+nothing.txt
+after.txt
+:
+
+apart.txt
+:
+in.txt
+:
+mycat
+in.txt
+in.txt
+apart.txt
+:
+";
+const RULES_DOCS : &str = "\
+docs
+:
+manual.txt
+:
+mycat
+manual.txt
+docs
+:
+
+book.txt
+:
+docs/intro.txt
+:
+mycat
+docs/intro.txt
+book.txt
+:
+";
+fn deep_dirs(n: usize) -> Vec<&'static str>
+{
+    let mut v : Vec<&'static str> = vec!["assets"]; let mut p = "assets".to_string();
+    for i in 0..n { p = format!("{}/level{}", p, i); v.push(Box::leak(p.clone().into_boxed_str())); }
+    v
+}
+fn deep_path(n: usize) -> String { let mut p = "assets".to_string(); for i in 0..n { p = format!("{}/level{}", p, i); } format!("{}/deep.txt", p) }
+fn deep_files(n: usize) -> Vec<(&'static str, &'static str)> { vec![("assets/top.txt", "top\n"), (Box::leak(deep_path(n).into_boxed_str()), "far down\n")] }
+fn deep_rules(n: usize) -> String { format!("deep_out.txt\n:\nassets\n:\nmycat\nassets/top.txt\n{}\ndeep_out.txt\n:\n", deep_path(n)) }
 const RULES_EQUAL : &str = "\
 joined.txt
 :
@@ -1177,6 +1245,28 @@ fn verif_build_mini_scenarios()
                    vec![Build, Write("parts/sub/b.txt", "part b, revised\n"), Build, Write("parts/sub/b.txt", "part b\n"), Build],
                    vec![Build, Write("parts/a.txt", "part b\n"), Write("parts/sub/b.txt", "part a\n"), Build],
                    vec![Build, Build, Clean, Build],
+               ] },
+        /*  a rule without any command line (the parser and the sorter accept it): a failure like any other */
+        Mini { name: "a rule without command lines", rules: RULES_NOCMD, files: &[("in.txt", "input\n")], dirs: &[],
+               targets: &["before.txt", "nothing.txt", "after.txt", "apart.txt"],
+               histories: vec![
+                   vec![BuildErrors(1)],
+                   vec![BuildErrors(1), BuildErrors(1), Clean],
+                   vec![BuildGoal("apart.txt", &["apart.txt"]), BuildErrors(1)],
+               ] },
+        /*  a directory source with a file twenty directories down */
+        Mini { name: "a deep directory as a source", rules: Box::leak(deep_rules(20).into_boxed_str()), files: Box::leak(deep_files(20).into_boxed_slice()), dirs: Box::leak(deep_dirs(20).into_boxed_slice()),
+               targets: &["deep_out.txt"],
+               histories: vec![
+                   vec![Build, Write(Box::leak(deep_path(20).into_boxed_str()), "far down, revised\n"), Build, Write(Box::leak(deep_path(20).into_boxed_str()), "far down\n"), Build],
+               ] },
+        /*  a DIRECTORY (with files that are nobody's targets) where a rule's target should be: clean leaves it alone */
+        Mini { name: "a directory at a target path", rules: RULES_DOCS, files: &[("manual.txt", "the manual\n"), ("docs/intro.txt", "introduction\n"), ("docs/notes.txt", "notes\n")], dirs: &["docs"],
+               targets: &["docs", "book.txt"],
+               histories: vec![
+                   vec![Clean],
+                   vec![BuildGoal("book.txt", &["book.txt"]), Clean],
+                   vec![BuildGoal("book.txt", &["book.txt"]), CleanGoal("docs", &["docs"]), CleanGoal("book.txt", &["book.txt"])],
                ] },
         Mini { name: "several rules fail alike", rules: RULES_FAILS, files: &[("in.txt", "input\n")], dirs: &[],
                targets: &["left.txt", "right.txt", "middle.txt", "far.txt", "further.txt"],
